@@ -107,7 +107,8 @@ func mkCase(doc map[string]any, q *Stmt, tags []string, nontrivial bool) Case {
 
 // ---------- shared table generator ----------
 
-var strPool = []string{"", "a", "ab", "abc", "b", "A", "Ab", "a(b", "x.y", "50%", "a_b", "世a", "[z]", "\\d", "a+b*", "^$|?", "a b", "xy"}
+var strPool = []string{"", "a", "ab", "abc", "b", "A", "Ab", "a(b", "x.y", "50%", "a_b", "世a", "[z]", "\\d", "a+b*", "^$|?", "a b", "xy",
+	"10", "9", "007", "1.0", "1e1", "7"}
 var numPool = []float64{0, 1, 2, 3, 5, 10, -1, -2, 0.5, 1.5, -0.5, 2.25, 100, 7}
 
 type table struct {
